@@ -94,12 +94,29 @@ def produced(prog: Program, td: FuncInfo) -> list[tuple[symx.SymPath, ast.Dict]]
     return out
 
 
-def check_paths(prog: Program, ci: ClassInfo, paths, label: str) -> list[Problem]:
-    """problems on consumer paths: KeyError on a literal dictionary, unaccepted keys of a ** expansion"""
+def check_paths(prog: Program, ci: ClassInfo, paths, label: str, state_keys: set | None = None) -> list[Problem]:
+    """problems on consumer paths: KeyError on a literal dictionary, unaccepted keys of a ** expansion, and — when
+    the keys that carry object state are given — a state key that is absent from the dictionary and silently
+    replaced by the reader's default"""
     probs: list[Problem] = []
     seen = set()
     for p in paths:
         for ev in p.events:
+            if ev.kind == "defaulted" and state_keys and ev.expr.value in state_keys:
+                key = ev.expr.value
+                k_ = ("defaulted", id(ev.node), key)
+                if k_ not in seen:
+                    seen.add(k_)
+                    have = sorted(k.value for k in ev.value.keys) if isinstance(ev.value, ast.Dict) else []
+                    probs.append(
+                        Problem(
+                            ev.node,
+                            ev.fi,
+                            f"{label}: '{key}' is not in the dictionary written on this path (keys: {have}) although other paths write it; the reader silently takes its default instead of the object's value "
+                            f"[when {p.cond_text()[:120]}]",
+                            f"defaulted-{key}",
+                        )
+                    )
             if ev.kind == "keyerror":
                 key = ev.expr.value
                 have = sorted(k.value for k in ev.value.keys) if isinstance(ev.value, ast.Dict) else []
@@ -138,9 +155,9 @@ def check_paths(prog: Program, ci: ClassInfo, paths, label: str) -> list[Problem
     return probs
 
 
-def consume(prog: Program, ci: ClassInfo, fd: FuncInfo, param: str, d: ast.Dict, facts: dict, label: str) -> list[Problem]:
+def consume(prog: Program, ci: ClassInfo, fd: FuncInfo, param: str, d: ast.Dict, facts: dict, label: str, state_keys: set | None = None) -> list[Problem]:
     paths = symx.explore(prog, fd, binding={param: d}, facts=facts, inline=_policy(prog, {"create", "modify", "to_dict"}), skip_tests=("logger",))
-    return check_paths(prog, ci, paths, label)
+    return check_paths(prog, ci, paths, label, state_keys)
 
 
 def facts_of(p: symx.SymPath) -> dict:
